@@ -35,6 +35,15 @@ CFG = dict(
          "single-gap variations each. Rule selections: every probe, gap variation and corpus file is run with rules = layout and then again with each rule "
          "that proposed fixes selected alone (not LT01, which is first in the pack; LT02 alone only for the probes in the quick tier), since 'only layout rules "
          "selected' includes selections of fewer rules, where a rule meets the input as written. "
+         "Comments that touch the code x layout options: 36 probes (the above plus 6 multi-line ones with operators, commas and keywords at line starts / ends) get, at each gap "
+         "next to a token an option acts on (c17's option rows: operators for their line position, commas, keywords of the indentation switches; every gap for the options about "
+         "comments and line breaks), each of 10 comment shapes without a space between comment and code (inline / block / multi-line block; in front, behind, both, ending or starting a line), "
+         "under every layout option alone at every non-default value (18 configurations), the hand-written comma / operator configurations and 5 combinations (quick: one in ten under the "
+         "options that move tokens past comments, one in forty under the others; thorough: all). Multi-line block comments (5 shapes: starting at a line end, between tokens, touching, alone on "
+         "lines, with an empty line inside) at every gap of these probes under the largest line length limit of a ladder (10..120) that makes the line on which the comment starts too long "
+         "(quick: one in three), plain and with an option row (one in three; half of them the options about comments), and under the default limit when that line exceeds 80. "
+         "The corpus variants: 'commented' also inserts comments touching the code and multi-line block comments, 'commentate' is c17's disturbance (comments behind the code of a line and "
+         "comment-only lines after it, lines joined); their configuration is drawn from the 9 hand-written ones, the 18 single options and 10 combinations. "
          "Per applied batch: case 'batch' = Gallina apply_batch(before, fixes) must equal the real tree after; per input: case 'run' = "
          "Gallina run over all batches must end in the real final tree and run_okb must equal the conjunction of the harness monitors; "
          "case 'synth' = random fix batches (all edit types, pairs in both orders, duplicates, conflicting entries, anchors on tokens / nodes / "
